@@ -58,7 +58,6 @@ func propC10(c *Ctx, r *Report) {
 	c.runDiscardOk(r, "abort.discardok", func(string) bool { return true })
 	r.Clauses = append(r.Clauses, "work follows the input, not a number in it (E97): a text backend or the SPIR-V backend that allocates (make) or loops in Go with the declared element count of an array type compares that count with a limit first - the count costs a few characters of source (armed for glsl, hlsl, msl, spirv; the DXIL emitter's five sites and the lowerer's createZeroComponents are listed by `-dump sourcecount` but not triaged)")
 	c.runSourceCount(r, "cost.sourcecount", inPkgs("glsl", "hlsl", "msl", "spirv"), nil)
-	r.floor("cost.sourcecount", 4)
 	r.Clauses = append(r.Clauses, staleHandlesClause+" - a stale handle indexes past the end of the compacted arena (panic on var<private> v: S = S(vec2(1, 2), 3))")
 	c.runStaleHandles(r, "phase.stalehandles", "wgsl/internal/lower", nil)
 	r.floor("phase.renumberingTails", 1)
